@@ -474,6 +474,11 @@ theorem parse_normal_form (s : Str) (t : Expr) (h : parseOp s = .ok t) :
 theorem parse_printable (s : Str) (t : Expr) (h : parseOp s = .ok t) (hx : Excluded t = false) : Printable t = true :=
   printable_of_parseOp s t h hx
 
+/-- On the results of `parse_op`, `Printable` is exactly the complement of `Excluded`: `Excluded` names precisely the trees that
+    `print_parse_partial` does not cover. -/
+theorem parse_printable_iff (s : Str) (t : Expr) (h : parseOp s = .ok t) : Printable t = !Excluded t :=
+  printable_iff_not_excluded s t h
+
 /-- `parse_print_parse`: for EVERY string `s` that `parse_op` accepts with a tree `t` that is not `Excluded`, the printed text
     `str(t)` is accepted by `parse_op` and yields the same tree up to positions, fresh names and ellipsis ids. -/
 theorem parse_print_parse (s : Str) (t : Expr) (h : parseOp s = .ok t) (hx : Excluded t = false) :
@@ -532,6 +537,13 @@ theorem not_excluded_samples :
       "a ->", ", a", "", "a... b", "[a...]", "(a b)...", "... a", "(a + 1)... [b]... 2", "a (b (c d)) -> , ()",
       "[a [b]] c", "([a]) [[b]...]", "b ......", "[[...]...]"].all (fun s => !excludedOf s)) = true := by
   decide +kernel
+
+/-- Non-vacuity of `parse_normal_form` and of the layer theorems: a text that exercises both `move_up` passes with a real
+    distribution (two alternatives), the bracket pass and a numeric axis inside brackets parses, its tree is `NRoot` and not
+    `Excluded`. -/
+example : (match parseOp "(a -> [b [1]]) [c], (d , e)...".toList with
+    | .ok t => NRoot t && !Excluded t && Printable t
+    | .error _ => false) = true := by decide +kernel
 
 example : ∃ y, parseOp "a [b c]... (d + 1) -> a, (d e)".toList = .ok y ∧
     ∃ z, parseOp y.print = .ok z ∧ z.shape = y.shape :=
